@@ -33,11 +33,13 @@ def gen_case(rng, i):
             s = gen.gen_const_struct(rng, shape=shape, kind=kind)
             s["as"] = gen.choice(rng, ["ndarray", "list"]) if shape else "scalar"
         ops.append(s)
-    return {"id": i, "kind": "c04", "which": which, "ops": ops}
+    opts = {"retain_coefficients": bool(rng.integers(2)), "retain_names": bool(rng.integers(2))} if rng.random() < .4 else \
+        {"retain_coefficients": False, "retain_names": True}
+    return {"id": i, "kind": "c04", "which": which, "ops": ops, "opts": opts}
 
 
 def driver_case(c):
-    return {"id": c["id"], "op": "align", "which": c["which"], "opts": {"retain_coefficients": False, "retain_names": True},
+    return {"id": c["id"], "op": "align", "which": c["which"], "opts": c.get("opts", {"retain_coefficients": False, "retain_names": True}),
             "polys": [{k: o[k] for k in ("names", "shape", "terms")} for o in c["ops"]]}
 
 
@@ -55,8 +57,12 @@ def check(ctx, c, model, monitor=None):
     if len({(tuple(o["names"]), tuple(o["shape"]), tuple(map(tuple, (t[0] for t in o["terms"])))) for o in c["ops"]}) > 1:
         ctx.nontrivial_add((c["id"],))
     before = [snapshot(o) for o in objs]
+    opts = c.get("opts", {})
+    if opts and not opts.get("retain_names", True) or opts.get("retain_coefficients"):
+        tags = tags + ["non-default-options"]
     try:
-        res = f(*objs)
+        with numpoly.global_options(**opts):
+            res = f(*objs)
     except Exception as err:  # noqa: BLE001
         if model.get("status") == "err":
             return
@@ -87,8 +93,16 @@ def check(ctx, c, model, monitor=None):
         ctx.fail(c, f"names differ after alignment: {[s['names'] for s in structs]}", tags + ["names"])
     if c["which"] in ("polynomials", "indeterminants", "exponents"):
         union = sorted({n for o in c["ops"] for n in o["names"]})
-        if structs[0]["names"] != union:
-            ctx.fail(c, f"names {structs[0]['names']} are not the union in index order {union}", tags + ["names"])
+        if opts.get("retain_names", True):
+            if structs[0]["names"] != union:
+                ctx.fail(c, f"names {structs[0]['names']} are not the union in index order {union}", tags + ["names"])
+        else:
+            # retain_names=False: unused names may be dropped while shapes are aligned; what must remain is every name
+            # in use, nothing foreign, in index order
+            used = sorted({n for s in structs for m in den_of_struct(s) for n, _ in m})
+            got = structs[0]["names"]
+            if got != sorted(got) or not set(used) <= set(got) or not set(got) <= set(union):
+                ctx.fail(c, f"names {got} under retain_names=False: must contain the names in use {used}, lie within {union} and be in index order", tags + ["names"])
     if c["which"] in ("polynomials", "exponents"):
         if len({tuple(map(tuple, (t[0] for t in s["terms"]))) for s in structs}) != 1 or len({tuple(map(str, r.keys)) for r in res}) != 1:
             ctx.fail(c, "exponent rows / storage keys differ after alignment", tags + ["rows"])
@@ -99,7 +113,8 @@ def check(ctx, c, model, monitor=None):
             break
     # idempotence
     try:
-        again = f(*res)
+        with numpoly.global_options(**opts):
+            again = f(*res)
         for r1, r2 in zip(res, again):
             if rep(poly_to_struct(r1)) != rep(poly_to_struct(r2)):
                 ctx.fail(c, "aligning already aligned arguments changed them", tags + ["idempotence"])
